@@ -137,12 +137,12 @@ pub fn run(ctx: &Ctx) -> usize {
 	ctx.set_rule("event histories: enumerated shapes (absent in first/last frame, gone-and-back, never present, leader absent while follower present, alternating, repeated/deep rollbacks, frame without characters) x 6 port layouts x 8 versions across the three framing regimes, plus random histories; oracle = the history itself: rows == occurrences, id column == id sequence, validity bit == presence, each present character's every leaf == that occurrence's payload (so a value in the wrong row/port is a mismatch), item offsets == item counts with items in order, every column and nested validity bitmap has one entry per row; non-trivial = >=2 rows and an absence, rollback or item; distinct by xxh3 of the file");
 	ctx.assume("values stored for absent characters are unspecified and not compared");
 	let mut violations = 0;
-	let n = SHAPES.len() * LAYOUTS.len() * VERS.len() * ctx.n(3, 30);
+	let n = SHAPES.len() * LAYOUTS.len() * VERS.len() * ctx.n(6, 60);
 	if run_enum(ctx, "shaped", n, |i| json!({ "i": i }), |i| check(ctx, &shaped_model(i), "shaped", true)).is_some() {
 		violations += 1;
 	}
 	let cfg = cfg(ctx);
-	if run_dna(ctx, "dna", ctx.n(8000, 400_000), dna_max(ctx), |dna, counting| check(ctx, &model_from_dna(dna, &cfg), "dna", counting)).is_some() {
+	if run_dna(ctx, "dna", ctx.n(60_000, 3_000_000), dna_max(ctx), |dna, counting| check(ctx, &model_from_dna(dna, &cfg), "dna", counting)).is_some() {
 		violations += 1;
 	}
 	violations
